@@ -479,6 +479,26 @@ namespace
                 return;
             }
 #endif
+#if SQ_FAMILY == 0 && defined(SQ_THROWING)
+            if (st.fkind && path <= 1)
+            {
+                // the element type's assignment throws while a named optional is written into an element: value and flag of
+                // that element both keep what they had (the pair is written value first; nothing else is touched)
+                xtl::xoptional<T, bool> named(a, f);
+                Elem old = m[i];
+                bool ok = xcall([&] { if (path == 0) c[i] = named; else *(c.begin() + di) = named; });
+                if (ok) m[i] = Elem(a, f);
+                else
+                {
+                    Elem now = storage(c, i);
+                    if (now != old) viol("invariant", "write-throw", "element " + std::to_string(i) + " is " + show(now) + " after a write whose value assignment threw; it was " + show(old) + " (one half of the pair was written)");
+                    SIM_PROBE("element_write_threw");
+                }
+                ++run.changing;
+                check_all();
+                return;
+            }
+#endif
             switch (path)
             {
             case 0: write_ref(c[i], form, a, b, f, m[i]); break;
@@ -592,6 +612,14 @@ namespace
             const Model& m = model[t];
             size_t i = static_cast<size_t>(st.a % (m.size() + 3));
             if ((st.b & 3) == 0) i = m.size();
+            if ((st.b & 15) == 5)
+            {
+                // indices no container can have: beyond PTRDIFF_MAX, where signed index arithmetic turns negative
+                const size_t top = ~size_t(0);
+                const size_t far[] = {top, top - 1, top / 2 + 1, top / 2 + 1 + m.size(), top - m.size(), top / 2 + 2};
+                i = far[(st.b >> 4) % 6];
+                if (i < m.size()) i = top;
+            }
             Scope sc(*this, st, "at", i < m.size() ? "in_range" : "out_of_range", t);
             C& c = slot[t].get();
             const C& cc = c;
@@ -654,7 +682,7 @@ namespace
         gen(plan, cfg, pr, tier);
         unsigned pct = 20 + 20 * static_cast<unsigned>(cfg.below(3));
         for (Step& s : plan.steps)
-            if ((s.op == OP_resize || s.op == OP_construct) && pr.below(100) < pct)
+            if ((s.op == OP_resize || s.op == OP_construct || s.op == OP_write) && pr.below(100) < pct)
             {
                 s.fkind = FK_THROW;
                 s.fk = pr.below(3) == 0 ? pr.below(3) : pr.below(45);
